@@ -26,7 +26,7 @@ type Program struct {
 	Prog  *ssa.Program
 	Order []string // sorted import paths of the module's own packages
 
-	Geometry    *types.Named   // orb.Geometry
+	Geometry    *types.Named // orb.Geometry
 	GeometryI   *types.Interface
 	Kinds       []*types.Named // the implementers of orb.Geometry, sorted by name
 	allFuncs    []*ssa.Function
